@@ -289,6 +289,16 @@ theorem commit_leaves_elected_set (st : NS) (id : Nat) (s : Session) (peer : Str
       exact ((List.filter_sublist).map _).nodup hnd1
     exact pipeline_acceptor_unique _ _ hCnd hall
 
+/-- (the winner is not told to leave) Right after authenticating, a session asks
+`CheckSession` with its own (peer name, nonce) and stops itself unless the reply lets it
+continue. An authenticated, ELECTED session always gets a reply that lets it continue —
+also when several sessions share its (name, nonce) — so the election never leaves a peer
+with no connection. -/
+theorem elected_session_continues (st : NS) (hnd : (st.sessions.map (·.id)).Nodup)
+    (hw : ∀ s ∈ st.sessions, s.conn ≠ some 0) (id : Nat) (hel : st.isElected id = true) :
+    ∃ r, st.postAuthReply id = some r ∧ r.continues = true :=
+  elected_continues st hnd hw id hel
+
 /-- non-vacuity: a state with an authenticated server-side session, a second server-side
 duplicate committing, and an unauthenticated spoofer claiming the same name. -/
 def exampleNS : NS :=
@@ -327,3 +337,4 @@ end C18
 #print axioms C18.unauthenticated_cannot_influence_ready
 #print axioms C18.elected_set_is_stable
 #print axioms C18.commit_leaves_elected_set
+#print axioms C18.elected_session_continues
